@@ -28,6 +28,7 @@ def check(ctx):
         collector.rule_danglings_arg(ctx, c, "R2")
         collector.rule_stale_kept(ctx, c, "R5")
     provrules.rule_mount_scope(ctx, facts, "R2")
+    provrules.rule_record_attachments_only_mounted(ctx, facts, "R2")   # to_span_records and a push hand out the same records: one writer
     provrules.rule_open_spans(ctx, facts, "R3")
     provrules.rule_forest_immutable(ctx, facts, "R4")
     # what delivery as such needs (see props/common.py)
